@@ -1,6 +1,7 @@
 package node
 
 import (
+	"bytes"
 	"context"
 	"database/sql"
 	"fmt"
@@ -660,6 +661,11 @@ func (d *Pegnetd) SnapshotPayouts(tx *sql.Tx, fLog *log.Entry, rates map[fat2.PT
 	}
 
 	sort.Slice(list, func(i, j int) bool {
+		if list[i].PUSD == list[j].PUSD {
+			// The list is filled from a map: equal stakes must not be ordered by chance, the
+			// order decides the payout index and who receives the dust of a capped payout.
+			return bytes.Compare(list[i].Address[:], list[j].Address[:]) < 0
+		}
 		return list[i].PUSD < list[j].PUSD
 	})
 
